@@ -33,6 +33,7 @@ theorem fl_self (x : Nat) (em : List Msg) (h : ∀ m ∈ em, Msg.flow? m = some 
 section Upd
 
 variable {p : PS} {e' : EP} {g' : Ghost} {i y : Nat} {o o' : Obj} {em : List Msg} {dq : List Nat}
+  {ba' hd fbaT : List Msg}
 
 /-- The view of flow `y` at `a` after the update. -/
 theorem objView_upd (u : LocalUpd p.a e' i o' em dq) (ho' : o'.fid = y) (k : Nat) :
@@ -44,15 +45,17 @@ theorem objView_upd (u : LocalUpd p.a e' i o' em dq) (ho' : o'.fid = y) (k : Nat
 theorem phase_upd (hp : Phase y p) (u : LocalUpd p.a e' i o' em dq)
     (ho : p.a.objs[i]? = some o) (hoy : o.fid = y) (ho' : o'.fid = y)
     (hem : ∀ m ∈ em, Msg.flow? m = some y ∧ m.isConnect = false)
-    (hS : ∀ oR fwd bwd r eof l, DirRel o oR fwd bwd (p.ga.wlog i) r eof l →
+    (hba1 : fl y (pathBA p) = hd ++ fbaT) (hba2 : fl y (ba' ++ p.b.outq) = fbaT)
+    (hS : ∀ oR fwd bwd r eof l, DirRel o oR fwd (hd ++ bwd) (p.ga.wlog i) r eof l →
             ∃ l', DirRel o' oR (fwd ++ em) bwd (g'.wlog i) r eof l')
-    (hR : ¬ y ∈ dq → ∀ oS fwd bwd w l, DirRel oS o fwd bwd w (p.ga.rlog i) (p.ga.eof i) l →
+    (hR : ¬ y ∈ dq → ∀ oS fwd bwd w l, DirRel oS o (hd ++ fwd) bwd w (p.ga.rlog i) (p.ga.eof i) l →
             ∃ l', DirRel oS o' fwd (bwd ++ em) w (g'.rlog i) (g'.eof i) l')
     (hHalf : o.rxq = [] → o.buf = [] → o.recvdSince = 0 → o.senderAlive = true →
-            o'.rxq = [] ∧ o'.buf = [] ∧ o'.recvdSince = 0 ∧ o'.senderAlive = true ∧ ∀ m ∈ em, ackOf m = none)
+            o'.rxq = [] ∧ o'.buf = [] ∧ o'.recvdSince = 0 ∧ o'.senderAlive = true ∧ (∀ m ∈ em, ackOf m = none) ∧
+            g'.rlog i = p.ga.rlog i ∧ g'.eof i = p.ga.eof i)
     (hcap : o'.cap = o.cap ∧ o'.threshold = o.threshold)
     (hdq : ∀ x ∈ dq, x = y) :
-    Phase y { p with a := e', ga := g' } := by
+    Phase y { p with a := e', ga := g', ba := ba' } := by
   have hov := objView_self ho hoy
   have hfl : fl y (p.ab ++ e'.outq) = fl y (pathAB p) ++ em := by
     rw [u.outq, ← List.append_assoc, fl_append, fl_self y em (fun m hm => (hem m hm).1)]; rfl
@@ -90,24 +93,31 @@ theorem phase_upd (hp : Phase y p) (u : LocalUpd p.a e' i o' em dq)
   have hwl0 : (ev y p.a p.ga).wlog i = p.ga.wlog i := by simp [ev, hov]
   have hrl0 : (ev y p.a p.ga).rlog i = p.ga.rlog i := by simp [ev, hov]
   have hel0 : (ev y p.a p.ga).eof i = p.ga.eof i := by simp [ev, hov]
-  show PhV y (ev y e' g') (ev y p.b p.gb) (fl y (p.ab ++ e'.outq)) (fl y (pathBA p))
-  rw [hfl]
+  show PhV y (ev y e' g') (ev y p.b p.gb) (fl y (p.ab ++ e'.outq)) (fl y (ba' ++ p.b.outq))
+  rw [hfl, hba2]
+  unfold Phase at hp
+  rw [hba1] at hp
+  have hnc2 : noConnect (hd ++ fbaT) → noConnect fbaT := fun hh m hm => hh m (List.mem_append_right _ hm)
   rcases hp with f | r | r | r | r | r | r
   · exact absurd f.oa hnoobj
   · exact absurd r.oa hnoobj
   · exact absurd r.ob hnoobj
   · exact absurd r.oa hnoobj
   · -- half-open, `a` is the accepting side
-    obtain ⟨j, oP, rest, l, h1, h2, h3, h4, h5, h6, h7, h8, h9, h10, h11, h12⟩ := r.body
+    obtain ⟨j, oP, rest, l, h1, h2, h3, h4, h5, h6, h7, h8, h9, h10, h11, h12, h13, h14⟩ := r.body
     obtain ⟨hji, honly'⟩ := honly j h3
     subst hji
     have hoP : oP = o := by
       rw [show (ev y p.a p.ga).objs j = objView y p.a j from rfl, hov] at h2; cases h2; rfl
     subst hoP
-    obtain ⟨k1, k2, k3, k4, k5⟩ := hHalf h8 h9 h10 h11
+    obtain ⟨k1, k2, k3, k4, k5, k6, k7⟩ := hHalf h8 h9 h10 h11
+    have hnil := r.fab
+    have hd0 : hd = [] := (List.append_eq_nil_iff.mp hnil).1
+    have hT0 : fbaT = [] := (List.append_eq_nil_iff.mp hnil).2
+    subst hd0
     rw [hwl0] at h12
     obtain ⟨l', hl'⟩ := hS _ _ _ _ _ _ h12
-    refine Or.inr (Or.inr (Or.inr (Or.inr (Or.inl ⟨r.ra, by show ¬ y ∈ e'.rng; rw [hrng]; exact r.rb, r.sa, r.oa, r.da, r.fab,
+    refine Or.inr (Or.inr (Or.inr (Or.inr (Or.inl ⟨r.ra, by show ¬ y ∈ e'.rng; rw [hrng]; exact r.rb, r.sa, r.oa, r.da, hT0,
       ⟨j, o', rest ++ em, l', ?_, hov', honly', ?_, ?_, ?_, ?_, k1, k2, k3, k4, ?_⟩⟩))))
     · show lookup e'.flows y = _; rw [hslot]; exact h1
     · rw [h4]; show _ = Msg.frame (Frame.acknowledge y e'.opts.rwnd) :: (rest ++ em); rw [u.opts]; rfl
@@ -119,7 +129,10 @@ theorem phase_upd (hp : Phase y p) (u : LocalUpd p.a e' i o' em dq)
     · show o'.threshold = thresholdFor e'.opts _; rw [hcap.2, u.opts]; exact h7
     · rw [hwl]
       have : (ev y e' g').opts = (ev y p.a p.ga).opts := by show e'.opts = p.a.opts; exact u.opts
-      rw [this]; exact hl'
+      rw [this]
+      rw [hrl0] at h13
+      rw [hel0] at h14
+      exact ⟨hl', by rw [hrl, k6]; exact h13, by rw [hel, k7]; exact h14⟩
   · -- linked
     obtain ⟨i0, j, oA, oB, h1, h2, h3, h4, h5, h6, h7⟩ := r.body
     obtain ⟨hji, honly'⟩ := honly i0 h5
@@ -127,7 +140,7 @@ theorem phase_upd (hp : Phase y p) (u : LocalUpd p.a e' i o' em dq)
     have hoA : oA = o := by
       rw [show (ev y p.a p.ga).objs i0 = objView y p.a i0 from rfl, hov] at h3; cases h3; rfl
     subst hoA
-    refine Or.inr (Or.inr (Or.inr (Or.inr (Or.inr (Or.inl ⟨by show ¬ y ∈ e'.rng; rw [hrng]; exact r.ra, r.rb, hnc _ r.nab, r.nba,
+    refine Or.inr (Or.inr (Or.inr (Or.inr (Or.inr (Or.inl ⟨by show ¬ y ∈ e'.rng; rw [hrng]; exact r.ra, r.rb, hnc _ r.nab, hnc2 r.nba,
       ⟨i0, j, o', oB, by show lookup e'.flows y = _; rw [hslot]; exact h1, h2, hov', h4, honly', h6, ?_⟩⟩)))))
     intro hda hdb
     obtain ⟨⟨l1, d1⟩, ⟨l2, d2⟩⟩ := h7 (hdq2 hda) hdb
@@ -139,7 +152,7 @@ theorem phase_upd (hp : Phase y p) (u : LocalUpd p.a e' i o' em dq)
     rw [hwl, hrl, hel]
     exact ⟨⟨l1', d1'⟩, ⟨l2', d2'⟩⟩
   · -- dead
-    exact Or.inr (Or.inr (Or.inr (Or.inr (Or.inr (Or.inr ⟨by show ¬ y ∈ e'.rng; rw [hrng]; exact r.ra, r.rb, hnc _ r.nab, r.nba,
+    exact Or.inr (Or.inr (Or.inr (Or.inr (Or.inr (Or.inr ⟨by show ¬ y ∈ e'.rng; rw [hrng]; exact r.ra, r.rb, hnc _ r.nab, hnc2 r.nba,
       by rcases r.gone with g | g
          · left; show lookup e'.flows y = none; rw [hslot]; exact g
          · right; exact g⟩)))))
